@@ -33,6 +33,7 @@ enum Lex {
     Array(Box<Lex>, u32),
     Custom(String, String, Vec<Lex>),
     Service(String, String),
+    Raw(Uuid),
 }
 
 #[derive(Clone, Debug, PartialEq)]
@@ -82,6 +83,7 @@ fn lex_text(t: &Lex, o: &mut String) {
             for a in args { o.push(' '); lex_text(a, o) }
         }
         Lex::Service(s, n) => { write!(o, "s {} {}", xs(s), xs(n)).unwrap() }
+        Lex::Raw(u) => { write!(o, "u {}", hex(u.as_bytes())).unwrap() }
     }
 }
 fn olex_text(t: &Option<Lex>, o: &mut String) { match t { None => o.push('-'), Some(t) => lex_text(t, o) } }
@@ -155,6 +157,7 @@ impl<'a> Toks<'a> {
             "a" => { let x = self.lex(); let n = self.int() as u32; Lex::Array(Box::new(x), n) }
             "c" => { let s = self.str(); let n = self.str(); let k = self.int(); let args = (0..k).map(|_| self.lex()).collect(); Lex::Custom(s, n, args) }
             "s" => { let s = self.str(); let n = self.str(); Lex::Service(s, n) }
+            "u" => Lex::Raw(Uuid::from_slice(&unhex(self.next())).unwrap()),
             t => panic!("lex {t}"),
         }
     }
@@ -218,6 +221,7 @@ fn lex_id(t: &Lex) -> LexicalId {
             3 => LexicalId::custom_generic(s, n, &[a[0], a[1], a[2]]),
             k => panic!("{k} type arguments") } }
         Lex::Service(s, n) => LexicalId::service(s, n),
+        Lex::Raw(u) => LexicalId(*u),
     }
 }
 
@@ -617,6 +621,115 @@ fn edit_semantic(r: &mut Rng, n: &mut Node) -> &'static str {
     }
 }
 
+// ------------------------------------------------------------------ code generated from a schema
+
+/// the table a real `DynIntrospectable` graph denotes, read through the public accessors of the IR
+/// (lexical ids stay opaque uuids); types are told apart by (lexical id, serialized layout)
+fn table_from_dyn(root: DynIntrospectable) -> Vec<Node> {
+    fn raw(l: LexicalId) -> Lex { Lex::Raw(l.0) }
+    fn oraw(l: Option<LexicalId>) -> Option<Lex> { l.map(raw) }
+    fn s(x: &str) -> String { x.to_string() }
+    fn d(x: Option<&str>) -> Option<String> { x.map(|x| x.to_string()) }
+    fn spec(l: &ir::LayoutIr) -> LayoutS {
+        use ir::BuiltInTypeIr as B;
+        match l {
+            ir::LayoutIr::BuiltIn(b) => LayoutS::BuiltIn(match *b {
+                B::Bool => Lex::Prim("Bool"), B::U8 => Lex::Prim("U8"), B::I8 => Lex::Prim("I8"), B::U16 => Lex::Prim("U16"),
+                B::I16 => Lex::Prim("I16"), B::U32 => Lex::Prim("U32"), B::I32 => Lex::Prim("I32"), B::U64 => Lex::Prim("U64"),
+                B::I64 => Lex::Prim("I64"), B::F32 => Lex::Prim("F32"), B::F64 => Lex::Prim("F64"), B::String => Lex::Prim("String"),
+                B::Uuid => Lex::Prim("Uuid"), B::ObjectId => Lex::Prim("ObjectId"), B::ServiceId => Lex::Prim("ServiceId"),
+                B::Value => Lex::Prim("Value"), B::Bytes => Lex::Prim("Bytes"), B::Lifetime => Lex::Prim("Lifetime"), B::Unit => Lex::Prim("Unit"),
+                B::Option(t) => Lex::Wrap("Option", Box::new(raw(t))), B::Box(t) => Lex::Wrap("Box", Box::new(raw(t))),
+                B::Vec(t) => Lex::Wrap("Vec", Box::new(raw(t))), B::Set(t) => Lex::Wrap("Set", Box::new(raw(t))),
+                B::Sender(t) => Lex::Wrap("Sender", Box::new(raw(t))), B::Receiver(t) => Lex::Wrap("Receiver", Box::new(raw(t))),
+                B::Map(m) => Lex::Map(Box::new(raw(m.key())), Box::new(raw(m.value()))),
+                B::Result(r) => Lex::Result(Box::new(raw(r.ok())), Box::new(raw(r.err()))),
+                B::Array(a) => Lex::Array(Box::new(raw(a.elem_type())), a.len()),
+            }),
+            ir::LayoutIr::Struct(t) => LayoutS::Struct { schema: s(t.schema()), name: s(t.name()), doc: d(t.doc()),
+                fields: t.fields().values().map(|f| FieldS { id: f.id(), name: s(f.name()), doc: d(f.doc()), req: f.is_required(), ty: raw(f.field_type()) }).collect(),
+                fb: t.fallback().map(|f| (s(f.name()), d(f.doc()))) },
+            ir::LayoutIr::Enum(t) => LayoutS::Enum { schema: s(t.schema()), name: s(t.name()), doc: d(t.doc()),
+                variants: t.variants().values().map(|v| VariantS { id: v.id(), name: s(v.name()), doc: d(v.doc()), ty: oraw(v.variant_type()) }).collect(),
+                fb: t.fallback().map(|f| (s(f.name()), d(f.doc()))) },
+            ir::LayoutIr::Newtype(t) => LayoutS::Newtype { schema: s(t.schema()), name: s(t.name()), doc: d(t.doc()), target: raw(t.target_type()) },
+            ir::LayoutIr::Service(t) => LayoutS::Service { schema: s(t.schema()), name: s(t.name()), doc: d(t.doc()), uuid: t.uuid().0, version: t.version(),
+                funcs: t.functions().values().map(|f| FuncS { id: f.id(), name: s(f.name()), doc: d(f.doc()), args: oraw(f.args()), ok: oraw(f.ok()), err: oraw(f.err()) }).collect(),
+                events: t.events().values().map(|e| EventS { id: e.id(), name: s(e.name()), doc: d(e.doc()), ty: oraw(e.event_type()) }).collect(),
+                ffb: t.function_fallback().map(|f| (s(f.name()), d(f.doc()))), efb: t.event_fallback().map(|f| (s(f.name()), d(f.doc()))) },
+        }
+    }
+    let key = |t: DynIntrospectable| (t.lexical_id().0, hex(&SerializedValue::serialize(&t.layout()).unwrap()));
+    let mut nodes: Vec<Node> = vec![];
+    let mut index: BTreeMap<(Uuid, String), usize> = BTreeMap::new();
+    let mut todo: Vec<(usize, DynIntrospectable)> = vec![];
+    index.insert(key(root), 0);
+    nodes.push(Node { lex: raw(root.lexical_id()), layout: spec(&root.layout()), refs: vec![] });
+    todo.push((0, root));
+    while let Some((k, t)) = todo.pop() {
+        let mut rs = vec![];
+        t.add_references(&mut References::new(&mut rs));
+        let mut refs = vec![];
+        for r in rs {
+            let kk = key(r);
+            let j = match index.get(&kk) { Some(j) => *j, None => { let j = nodes.len(); index.insert(kk, j);
+                nodes.push(Node { lex: raw(r.lexical_id()), layout: spec(&r.layout()), refs: vec![] }); todo.push((j, r)); j } };
+            refs.push(j);
+        }
+        nodes[k].refs = refs;
+    }
+    nodes
+}
+
+#[cfg(feature = "c20-macros")]
+mod generated {
+    pub mod va { aldrin::generate!("schemas/c20/va/c20s.aldrin", introspection = true); }
+    pub mod vb { aldrin::generate!("schemas/c20/vb/c20s.aldrin", introspection = true); }
+    pub mod vc { aldrin::generate!("schemas/c20/vc/c20s.aldrin", introspection = true); }
+}
+
+/// types generated by `aldrin::generate!` (the code generator's Rust backend + the derive macros) from
+/// three variants of one schema: every generated type's graph is read back into a table, the table is
+/// run against the model like any other family, and the ids of the generated types themselves are
+/// compared across the variants
+#[cfg(feature = "c20-macros")]
+fn generated_families(out: &mut Out, monitor: &mut Vec<String>, classes: &mut BTreeMap<&'static str, u64>) {
+    use generated::{va::c20s as a, vb::c20s as b, vc::c20s as c};
+    macro_rules! one { ($name:literal, $t:ident, $changed:expr) => {{
+        let (da, db, dc) = (DynIntrospectable::new::<a::$t>(), DynIntrospectable::new::<b::$t>(), DynIntrospectable::new::<c::$t>());
+        let (ia, ib, ic) = (TypeId::compute::<a::$t>(), TypeId::compute::<b::$t>(), TypeId::compute::<c::$t>());
+        for (variant, dy, id) in [("A", da, ia), ("B", db, ib), ("C", dc, ic)] {
+            let table = table_from_dyn(dy);
+            let text = universe_text(&table);
+            out.universe(&table);
+            let mut t0 = String::new();
+            for k in 0..table.len() { out.op("lexid", k); out.op("canon", k); let t = out.op("tid", k); if k == 0 { t0 = t; } }
+            out.op("cbytes", 0);
+            out.op("intro", 0);
+            let rt = out.op("rt", 0);
+            *classes.entry("generated_types").or_insert(0) += 1;
+            if t0 != hex(id.0.as_bytes()) { monitor.push(format!("generated type {} (variant {variant}): TypeId::compute differs from the id of its own IR rebuilt through the builders: {} vs {t0} universe={text} root=0", $name, hex(id.0.as_bytes()))); }
+            if !rt.starts_with("ok") { monitor.push(format!("record round trip fails: {rt} (generated type {}, variant {variant}) universe={text} root=0", $name)); }
+        }
+        let intro = Introspection::new::<a::$t>();
+        let back = SerializedValue::serialize(&intro).unwrap().deserialize::<Introspection>();
+        if back.as_ref().ok() != Some(&intro) || intro.type_id() != ia { monitor.push(format!("record round trip fails: generated type {} universe={} root=0", $name, universe_text(&table_from_dyn(da)))); }
+        if ia != ib { monitor.push(format!("id changed by docs/order: generated type {} has id {} in variant A and {} in variant B universe={} root=0 variant={} vroot=0", $name, hex(ia.0.as_bytes()), hex(ib.0.as_bytes()), universe_text(&table_from_dyn(da)), universe_text(&table_from_dyn(db)))); }
+        if (ia != ic) != $changed { monitor.push(format!("wire-relevant edit 'variant type' in the schema: generated type {} id A={} C={} expected {} universe={} root=0 variant={} vroot=0", $name, hex(ia.0.as_bytes()), hex(ic.0.as_bytes()), if $changed { "different" } else { "equal" }, universe_text(&table_from_dyn(da)), universe_text(&table_from_dyn(dc)))); }
+    }}; }
+    one!("Node", Node, true);
+    one!("Tag", Tag, true);
+    one!("Wrapper", Wrapper, true);
+    one!("Svc", Svc, true);
+    one!("Leaf", Leaf, false);
+    one!("Color", Color, false);
+    one!("Holder", Holder, false);
+}
+#[cfg(not(feature = "c20-macros"))]
+fn generated_families(_out: &mut Out, _monitor: &mut Vec<String>, classes: &mut BTreeMap<&'static str, u64>) {
+    *classes.entry("generated_types_not_compiled_in").or_insert(0) += 1;
+}
+
 // ------------------------------------------------------------------ main
 
 struct Out { cases: Vec<String>, imp: Vec<String> }
@@ -636,7 +749,7 @@ fn gen(outdir: &str, families: u64) {
     let mut kinds: BTreeMap<String, u64> = BTreeMap::new();
     let mut edits: BTreeMap<String, u64> = BTreeMap::new();
     let mut classes: BTreeMap<&'static str, u64> = BTreeMap::new();
-    let mut bump = |m: &mut BTreeMap<&'static str, u64>, k: &'static str| *m.entry(k).or_insert(0) += 1;
+    let bump = |m: &mut BTreeMap<&'static str, u64>, k: &'static str| *m.entry(k).or_insert(0) += 1;
     for _ in 0..families {
         let u = gen_family(&mut r);
         let root = 0usize;
@@ -682,7 +795,9 @@ fn gen(outdir: &str, families: u64) {
         }
         // ---- single wire-relevant edits: the id changes iff the wire description changes
         for _ in 0..4 {
-            let k = r.below(u.len() as u64) as usize;
+            // two thirds of the edits hit a schema-defined type, the rest any table entry
+            let customs: Vec<usize> = (0..u.len()).filter(|k| !matches!(u[*k].layout, LayoutS::BuiltIn(_))).collect();
+            let k = if !customs.is_empty() && r.chance(2, 3) { customs[r.below(customs.len() as u64) as usize] } else { r.below(u.len() as u64) as usize };
             let mut v = u.clone();
             let what = edit_semantic(&mut r, &mut v[k]);
             *edits.entry(what.to_string()).or_insert(0) += 1;
@@ -720,6 +835,26 @@ fn gen(outdir: &str, families: u64) {
             }
         }
     }
+    // ---- outside the hypothesis `coherent`: two types claim sch::Node with the same layout but reference
+    // different element types; the id of the root then depends on the order its references are pushed
+    // (the model predicts this: Example C20_incoherent_order_matters).  Recorded, not a violation.
+    {
+        let nt = |name: &str, target: Lex| LayoutS::Newtype { schema: "sch".into(), name: name.into(), doc: None, target };
+        let c = |n: &str| Lex::Custom("sch".into(), n.into(), vec![]);
+        let mk = |order: [usize; 2]| vec![
+            Node { lex: c("Root"), layout: nt("Root", c("Node")), refs: order.to_vec() },
+            Node { lex: c("Node"), layout: nt("Node", c("Elem")), refs: vec![3] },
+            Node { lex: c("Node"), layout: nt("Node", c("Elem")), refs: vec![4] },
+            Node { lex: c("Elem"), layout: LayoutS::BuiltIn(Lex::Prim("U8")), refs: vec![] },
+            Node { lex: c("Elem"), layout: LayoutS::BuiltIn(Lex::Prim("Bool")), refs: vec![] },
+        ];
+        out.universe(&mk([1, 2]));
+        let a = out.op("tid", 0);
+        out.universe(&mk([2, 1]));
+        let b = out.op("tid", 0);
+        bump(&mut classes, if a != b { "incoherent_probe_id_depends_on_push_order" } else { "incoherent_probe_id_stable" });
+    }
+    generated_families(&mut out, &mut monitor, &mut classes);
     std::fs::create_dir_all(outdir).unwrap();
     std::fs::write(format!("{outdir}/cases.txt"), out.cases.join("\n") + "\n").unwrap();
     std::fs::write(format!("{outdir}/impl.txt"), out.imp.join("\n") + "\n").unwrap();
